@@ -663,7 +663,8 @@ func builtin_ord(self, obj py.Object) (py.Object, error) {
 	case py.String:
 		size = len(x)
 		rune, runeSize := utf8.DecodeRuneInString(string(x))
-		if size == runeSize && rune != utf8.RuneError {
+		// (RuneError, 1) is a decoding failure, (RuneError, 3) is a genuine U+FFFD
+		if size == runeSize && (rune != utf8.RuneError || runeSize == 3) {
 			return py.Int(rune), nil
 		}
 	//case py.ByteArray:
